@@ -9,6 +9,7 @@ From CB Require Import Base.Hex Base.Vec3.
 From CB Require Import Model.C18_Finder Model.C18_RoundSpec Model.C18_Reorient.
 From CB Require Import Proofs.C18_Finder Proofs.C18_Reorient Proofs.C18_Exact Proofs.C18_ExactAlign.
 From CB Require Import Gen.C18.Tables.
+From CB Require Import Gen.C18.Source Proofs.C18_SourceEq.
 Import ListNotations.
 
 (** * 1. Geometric finders *)
@@ -161,6 +162,33 @@ Definition C18_grouping_partial_stmt : Prop :=
   forall (N : side -> vec) (n : vec) (s s' : side),
     orthoframe N -> norm2 n = 1 -> s <> s' -> half_sqrt2 < dot n (N s) -> dot n (N s') < half_sqrt2.
 
+(** * 4. The model of the geometric finders is the source
+
+    Gen/C18/Source.v: the translation (harness/translate_np.py, regenerated from the working tree on every run, fail
+    closed) of functions.point_to_plane_distance / is_point_on_plane / unit_vector / norm and of the WHOLE methods
+    FinderBase._find_by_position (loop included), GeometricFinder.find_in_sphere, find_on_plane.  [Some y] = read in
+    exact real arithmetic the call returns y; [None] = no real-number reading (the zero normal: numpy's nan).
+    The translated functions equal the functions of Model/C18_Finder.v for all arguments (plane: for every non-zero
+    normal, the hypothesis of [C18_plane]); hence [C18_sphere] and [C18_plane] are theorems about the translated
+    source (last two conjuncts). *)
+Open Scope R_scope.
+Definition C18_source_is_model_stmt : Prop :=
+  (forall tol o n p, n <> vzero ->
+      src_point_to_plane_distance tol o n p = Some (point_to_plane_distance tol o n p)
+      /\ src_is_point_on_plane tol o n p = Some (is_point_on_plane tol o n p))
+  /\ (forall tol o p, src_is_point_on_plane tol o vzero p = None)
+  /\ (forall tol vs p r,
+        src_find_by_position tol vs p r = Some (find_by_position tol vs p (Some r))
+        /\ src_find_in_sphere tol vs p r = Some (find_in_sphere tol vs p (Some r)))
+  /\ (forall tol vs p,
+        src_find_by_position_default tol vs p = Some (find_by_position tol vs p None)
+        /\ src_find_in_sphere_default tol vs p = Some (find_in_sphere tol vs p None))
+  /\ (forall tol vs o n, n <> vzero -> src_find_on_plane tol vs o n = Some (find_on_plane tol vs o n))
+  /\ (forall tol vs p r v, exists l, src_find_in_sphere tol vs p r = Some l /\ (In v l <-> In v vs /\ dist v p < r))
+  /\ (forall tol vs p v, exists l, src_find_in_sphere_default tol vs p = Some l /\ (In v l <-> In v vs /\ dist v p < tol))
+  /\ (forall tol vs o n v, n <> vzero ->
+        exists l, src_find_on_plane tol vs o n = Some l /\ (In v l <-> In v vs /\ Rabs (dot (vsub v o) n) / norm n < tol)).
+
 (** * Proofs (everything that does not depend on the tables is in Proofs/C18_*.v) *)
 
 Theorem C18_sphere : C18_sphere_stmt.
@@ -238,6 +266,22 @@ Proof. exact rank_check_sound. Qed.
 Theorem C18_grouping_partial : C18_grouping_partial_stmt.
 Proof. exact grouping_separation. Qed.
 
+Theorem C18_source_is_model : C18_source_is_model_stmt.
+Proof.
+  split; [intros tol o n p H; split; [exact (src_point_to_plane_distance_eq tol o n p H) | exact (src_is_point_on_plane_eq tol o n p H)]|].
+  split; [exact src_is_point_on_plane_zero|].
+  split; [intros tol vs p r; split; [exact (src_find_by_position_eq tol vs p r) | exact (src_find_in_sphere_eq tol vs p r)]|].
+  split; [intros tol vs p; split; [exact (src_find_by_position_default_eq tol vs p) | exact (src_find_in_sphere_default_eq tol vs p)]|].
+  split; [exact src_find_on_plane_eq|].
+  split; [|split].
+  - intros tol vs p r v. exists (find_in_sphere tol vs p (Some r)).
+    split; [exact (src_find_in_sphere_eq tol vs p r) | exact (C18_sphere tol vs p (Some r) v)].
+  - intros tol vs p v. exists (find_in_sphere tol vs p None).
+    split; [exact (src_find_in_sphere_default_eq tol vs p) | exact (C18_sphere tol vs p None v)].
+  - intros tol vs o n v H. exists (find_on_plane tol vs o n).
+    split; [exact (src_find_on_plane_eq tol vs o n H) | exact (C18_plane tol vs o n v H)].
+Qed.
+
 (** the hypotheses are satisfiable *)
 Example C18_plane_hyp_sat : (1, 0, 0)%R <> vzero.
 Proof. intros H. inversion H. lra. Qed.
@@ -280,3 +324,4 @@ Print Assumptions C18_numbering_independent.
 Print Assumptions C18_right_handed.
 Print Assumptions C18_alignment_order.
 Print Assumptions C18_grouping_partial.
+Print Assumptions C18_source_is_model.
